@@ -96,7 +96,8 @@ pub fn replay(args: &Args) {
     let cases = read_ndjson(args.req("in"));
     let mut rep = Report::new(args.get("prop").unwrap_or("C16"), args.req("out"));
     let mut nat_done = false;
-    for v in &cases {
+    for v in cases {
+        let v = &v;
         let op = get_str(v, "op");
         rep.cases += 1;
         if rep.cases % 400 == 1 {
